@@ -29,6 +29,11 @@ def cells(tier):
             for g in GROUPS:
                 out.append({"name": "%s-%s-%s" % (a, b, g), "A": a, "B": b,
                             "group": g, "n": N[tier]})
+    if tier == "thorough":
+        # coverage-guided campaign over the Voronoi-region trees of the two
+        # Nesterov implementations (C09-F2 hid in one branch of them)
+        from ..common import fuzz_cells
+        out += fuzz_cells("nesterov", 6, 40000)
     return out
 
 
